@@ -61,7 +61,21 @@ def gen_exprs(rng, n, sum_op, prod_op, carrier, max_leaves, wrappers, repeat=Fal
                 u = "u%d" % i                                   # the wrapped input gets a name used nowhere else
                 uvs = tuple((u, s_) if n_ == kk else (n_, s_) for n_, s_ in vs)
                 lf = leaf("f%d" % i, uvs, (), carrier)
-                w = rng.choice(["rename", "slice", "cat", "index", "index_same"])
+                w = rng.choice(["rename", "slice", "cat", "index", "index_same", "slice_full_same", "rename_same"])
+                if w == "slice_full_same":
+                    # a full-range Slice onto the SAME name: value-wise the identity, but a distinct term on the tape
+                    lf = leaf("f%d" % i, tuple(vs), (), carrier)
+                    e = subs(lf, ((kk, slice_(kk, 0, size, 1, size)),))
+                    must_reduce.add(kk)
+                    ops_.append(e)
+                    continue
+                if w == "rename_same":
+                    # the identity renaming x(a=a)
+                    lf = leaf("f%d" % i, tuple(vs), (), carrier)
+                    e = subs(lf, ((kk, var(kk, ("bint", size))),))
+                    must_reduce.add(kk)
+                    ops_.append(e)
+                    continue
                 if w == "index_same":
                     # the index tensor is over the SAME name (and size) as the input it replaces: x(i=perm[i])
                     lf = leaf("f%d" % i, tuple(vs), (), carrier)
@@ -182,10 +196,15 @@ def build_obligation(inst):
             arr = leaves[canon]
             kk_ = (id(arr), enames)
             if kk_ not in by_data:
-                # leaf not on the tape (e.g. consumed by an eager substitution): its adjoint is not reported
-                continue
+                if optimize != "reflect":
+                    # leaf not on the tape (consumed by a substitution that `lazy` performs at once): not reported
+                    continue
+                # under reflect every wrapper stays a term, so the leaf IS a leaf of the expression: a missing entry
+                # means forward_backward's table answers with the semiring zero
+                adj = funsor.to_funsor(ops.UNITS[sum_op])
+            else:
+                key, adj = by_data[kk_]
             checked_keys += 1
-            key, adj = by_data[kk_]
             # Cat is additive: the other parts of a Cat containing this leaf do not contribute to its derivative
             zeroed = set()
             for cn in cats:
